@@ -151,4 +151,43 @@ theorem toOrientation_roundtrip (sz : AxMap → Int) (hsz : SzOk sz) {g : Geom} 
   have e2' : (SOp.toOrientation (orientChars cur)).applyG sz .patient r1.1 = .ok r2 := e2
   exact rearranging_pair_identity sz hsz ho hp rfl rfl e1' e2' (hcol .a0) (hcol .a1) (hcol .a2)
 
+/-- a sequence of spatial operations on a geometry: the final geometry and the composed index map (final index ↦ original) -/
+def runSteps (sz : AxMap → Int) (coord : Coord) : Geom → List SOp → Except ErrKind GStep
+  | g, [] => .ok (g, id)
+  | g, op :: rest => do
+    let r1 ← op.applyG sz coord g
+    let r2 ← runSteps sz coord r1.1 rest
+    pure (r2.1, fun j => r1.2 (r2.2 j))
+
+theorem runSteps_sound (sz : AxMap → Int) (hsz : SzOk sz) (coord : Coord) (ops : List SOp) :
+    ∀ {g : Geom} {r : GStep}, g.Pos → (∀ op ∈ ops, SOp.rearranges op = true) → runSteps sz coord g ops = .ok r →
+      StepOk g r ∧ NoNew g r ∧ Onto g r := by
+  induction ops with
+  | nil =>
+    intro g r hp _ h
+    simp only [runSteps, Except.ok.injEq] at h
+    subst h
+    exact ⟨stepOk_id hp, noNew_id g, onto_id g⟩
+  | cons op rest ih =>
+    intro g r hp hall h
+    simp only [runSteps] at h
+    obtain ⟨r1, e1, h⟩ := bind_ok.mp h
+    obtain ⟨r2, e2, h⟩ := bind_ok.mp h
+    simp only [pure, Except.pure, Except.ok.injEq] at h
+    subst h
+    have k := hall op (List.mem_cons_self ..)
+    simp only [SOp.rearranges, Bool.and_eq_true] at k
+    obtain ⟨s1, n1, _⟩ := applyG_sound sz hsz hp e1
+    have o1 := applyG_onto sz hsz hp k.2 e1
+    obtain ⟨s2, n2, o2⟩ := ih s1.shape (fun o ho => hall o (List.mem_cons_of_mem _ ho)) e2
+    exact ⟨StepOk.comp s1 s2, NoNew.comp (n1 k.1) n2, Onto.comp o1 o2⟩
+
+/-- **any composition of rearrangements after which the affine has the columns of the input is the identity** -/
+theorem runSteps_rigid (sz : AxMap → Int) (hsz : SzOk sz) (coord : Coord) (ops : List SOp) {g : Geom} {r : GStep}
+    (ho : g.Orth) (hp : g.Pos) (hall : ∀ op ∈ ops, SOp.rearranges op = true) (h : runSteps sz coord g ops = .ok r)
+    (h0 : r.1.c0 = g.c0) (h1 : r.1.c1 = g.c1) (h2 : r.1.c2 = g.c2) : r.1 = g ∧ ∀ j, r.2 j = j := by
+  obtain ⟨s, n, o⟩ := runSteps_sound sz hsz coord ops hp hall h
+  exact rigid_of_same_cols ho hp s n o h0 h1 h2
+
+
 end HdVerif.VolLemmas
